@@ -207,6 +207,14 @@ class Connection:
             return [(r[0], r[1], r[2]) for r in self.names]
         if sql == "SELECT name, uri FROM pyro_names":
             return [(r[1], r[2]) for r in self.names]
+        if sql in ("SELECT id, name, uri FROM pyro_names WHERE substr(name, 1, ?)=?", "SELECT name, uri FROM pyro_names WHERE substr(name, 1, ?)=?"):
+            n, prefix = params
+            if not (n == len(prefix)):
+                raise sqlite3.OperationalError("substr shape with a length other than the prefix length is not modelled")
+            hits = [r for r in self.names if r[1].startswith(prefix)]
+            if sql.startswith("SELECT id"):
+                return [(r[0], r[1], r[2]) for r in hits]
+            return [(r[1], r[2]) for r in hits]
         if sql == "SELECT id, name, uri FROM pyro_names WHERE name LIKE ?":
             return [(r[0], r[1], r[2]) for r in self.names if like(params[0], r[1])]
         if sql == "SELECT name, uri FROM pyro_names WHERE name LIKE ?":
